@@ -286,4 +286,10 @@ def run(P, R, tier):
     # a timer that outlives its request fires on whoever reuses the memory: one timer per request, freed with it
     cl = c10.cleanup_fn(P, Remap(R, {'C10.MPT.1': 'C07.TMR.1', 'C10.WIRE.1': 'C07.TMR.1'}))
     c10.timer_lifecycle(P, Remap(R, {'C10.WMC.2': 'C07.TMR.1'}), cl)
+    from . import c08, c19
+    # a CR inside one client's free text must not become a line about another client
+    c08.line_splitting(P, R, 'C07.TAB.2')
+    # the request table orders ids with the int comparator: a comparator that is not a total order files one client
+    # where another client's traffic decides whether it is found
+    c19.comparators(P, R, 'C07.ARITH.2')
     return EXPLANATION, ASSUMPTIONS
